@@ -990,11 +990,14 @@ impl<A: Ar> Exec<A> {
                         if post.nodes != pre.nodes {
                             self.v("C10", "fresh_touched_list", "allocation from fresh space changed the free list".into());
                         }
-                        if boff != pre.allocated as usize {
-                            self.v("C16", "first_offset", format!("fresh allocation buffer starts at {} but the cursor was {}", boff, pre.allocated));
-                        }
-                        if off != align_up(pre.allocated as usize, align) {
-                            self.v("C16", "first_offset", format!("fresh allocation at {} is not the first offset aligned to {} at or after cursor {}", off, align, pre.allocated));
+                        // C16 states this for the first allocation of an arena (cursor still at data_offset)
+                        if pre.allocated as usize == self.data_offset && !self.rewound {
+                            if boff != pre.allocated as usize {
+                                self.v("C16", "first_offset", format!("first allocation buffer starts at {} but data_offset is {}", boff, pre.allocated));
+                            }
+                            if off != align_up(pre.allocated as usize, align) {
+                                self.v("C16", "first_offset", format!("first allocation at {} is not the first offset aligned to {} at or after data_offset {}", off, align, pre.allocated));
+                            }
                         }
                     } else {
                         self.stats.slow_allocs += 1;
